@@ -2,6 +2,7 @@ import OmplModel.Proofs.Interleave
 import OmplModel.Proofs.InterleaveInst
 import OmplModel.Proofs.InterleavePrrt
 import OmplModel.Proofs.InterleaveSchedules
+import OmplModel.Proofs.InterleaveRound2
 /-!
 # C19 — concurrent use through the documented thread-safe surface is race-free
 
@@ -174,6 +175,70 @@ theorem unguarded_add_loses (a b : Sol) :
     by simp [addThreads, addThreadsFrom, addThread, addOp, exec, trace, runSteps, SStep.apply, SStore.init,
       insertSorted]⟩
 
+/-! ### … with `clearSolutionPaths()` -/
+
+/-- **Guarded adds and clears are linearizable**: whatever the schedule, the resulting list is the sequential
+result `seqRun l []` of one total order `l` of all the calls that contains every thread's calls in program order. -/
+theorem guarded_add_clear_linearizable (k : Kind) (hk : k ≠ .plain) (opss : List (List QOp)) (is : List Nat)
+    (hc : Complete (qThreads k opss) is) :
+    ∃ l : List QOp, l.Perm opss.flatten ∧ (∀ ops ∈ opss, ops.Sublist l) ∧
+      (exec QStep.apply (qThreads k opss) SStore.init is).sols = seqRun l [] := by
+  rw [qThreads_guarded k hk] at hc ⊢
+  have hsteps : ∀ a ∈ trace (opss.map (fun ops => ops.map QOp.toStep)) is, ∃ o : QOp, a = o.toStep := by
+    intro a ha
+    obtain ⟨t, ht, hat⟩ := mem_trace _ _ a ha
+    obtain ⟨ops, _, rfl⟩ := List.mem_map.mp ht
+    obtain ⟨o, _, rfl⟩ := List.mem_map.mp hat
+    exact ⟨o, rfl⟩
+  obtain ⟨l, hl⟩ := exists_map_toStep _ hsteps
+  refine ⟨l, ?_, ?_, ?_⟩
+  · have hp := (trace_perm_of_complete hc).filterMap QStep.toOp?
+    rw [hl, flatten_map_map, filterMap_toOp_map, filterMap_toOp_map] at hp
+    exact hp
+  · intro ops hops
+    have := (trace_sublist_of_complete hc (ops.map QOp.toStep) (List.mem_map.mpr ⟨ops, hops, rfl⟩)).filterMap QStep.toOp?
+    rwa [hl, filterMap_toOp_map, filterMap_toOp_map] at this
+  · simp only [exec]
+    rw [hl, runSteps_qops]
+    rfl
+
+/-- what that sequential result is: exactly the solutions added behind the last clear of the linearization, in
+order — a solution added before a clear is gone, one added after the last clear is there (the harness oracle of
+`solmix` checks these two consequences against the real-time order of the calls) -/
+theorem guarded_add_clear_result (k : Kind) (hk : k ≠ .plain) (opss : List (List QOp)) (is : List Nat)
+    (hc : Complete (qThreads k opss) is) :
+    ∃ l : List QOp, l.Perm opss.flatten ∧ (∀ ops ∈ opss, ops.Sublist l) ∧
+      (exec QStep.apply (qThreads k opss) SStore.init is).sols.Perm (live l []) ∧
+      Sorted (exec QStep.apply (qThreads k opss) SStore.init is).sols := by
+  obtain ⟨l, hp, hs, he⟩ := guarded_add_clear_linearizable k hk opss is hc
+  exact ⟨l, hp, hs, by rw [he]; exact seqRun_perm_live l [], by rw [he]; exact seqRun_sorted l [] trivial⟩
+
+example : (exec QStep.apply (qThreads .mutexGuarded [[.add ⟨5, 0⟩, .add ⟨1, 1⟩], [.clear, .add ⟨3, 2⟩]]) SStore.init
+    [0, 1, 0, 1]).sols = [⟨1, 1⟩, ⟨3, 2⟩] := by decide
+
+/-- **The optimistic add is not linearizable.**  `add x` split over two critical sections (copy · publish the
+copy if the size is unchanged) racing with `clear; add y` on a set holding `o`: the schedule copy · clear · add y ·
+publish ends with `o` back in the set, which no sequential order of the three calls allows. -/
+theorem optimistic_add_resurrects (o x y : Sol) (hox : o ≠ x) (hoy : o ≠ y) :
+    ∃ is, Complete (qThreads .plain [[.add x], [.clear, .add y]]) is ∧
+      o ∈ (exec QStep.apply (qThreads .plain [[.add x], [.clear, .add y]]) ⟨[o], fun _ => []⟩ is).sols ∧
+      ∀ l ∈ [[QOp.add x, .clear, .add y], [.clear, .add x, .add y], [.clear, .add y, .add x]], o ∉ seqRun l [o] := by
+  refine ⟨[0, 1, 1, 1, 0], by simp [Complete, qThreads, qThreadsFrom, qThread, qSteps, remain], ?_, ?_⟩
+  · have : (exec QStep.apply (qThreads .plain [[.add x], [.clear, .add y]]) ⟨[o], fun _ => []⟩ [0, 1, 1, 1, 0]).sols =
+        insertSorted x [o] := by
+      simp [qThreads, qThreadsFrom, qThread, qSteps, exec, trace, runSteps, QStep.apply, insertSorted]
+    rw [this, mem_insertSorted]
+    exact Or.inr (List.mem_singleton.mpr rfl)
+  · intro l hl
+    simp only [List.mem_cons, List.not_mem_nil, or_false] at hl
+    rcases hl with rfl | rfl | rfl
+    · have : seqRun [QOp.add x, .clear, .add y] [o] = insertSorted y [] := rfl
+      rw [this, mem_insertSorted]; simp [hoy]
+    · have : seqRun [QOp.clear, .add x, .add y] [o] = insertSorted y (insertSorted x []) := rfl
+      rw [this, mem_insertSorted, mem_insertSorted]; simp [hox, hoy]
+    · have : seqRun [QOp.clear, .add y, .add x] [o] = insertSorted x (insertSorted y []) := rfl
+      rw [this, mem_insertSorted, mem_insertSorted]; simp [hox, hoy]
+
 /-! ## seed generator: `RNGSeedGenerator::nextSeed` under `rngMutex_` -/
 
 /-- **Guarded `nextSeed` hands every caller a different stream position** — at every moment of every
@@ -272,6 +337,95 @@ theorem plain_flag_may_never_be_seen (n : Nat) :
   · simp only [exec, flagThreads, trace, List.getElem?_cons_succ, List.getElem?_cons_zero, List.set_cons_succ,
       List.set_cons_zero, htr, runSteps_cons, FStep.apply, FStore.init]
     exact hrun n [] (by simp)
+
+/-! ### the periodic form -/
+
+/-- **Periodic form, as in the code (`eval()` answers `terminate_ || cache`)**: every evaluation scheduled after
+`terminate()` returns true and the answers are monotone, for every schedule of the evaluation thread (`m` rounds of
+calling the predicate and then storing its answer), the terminating thread and a planner evaluating `n` times —
+in particular when `terminate()` falls between the predicate call and the store. -/
+theorem periodic_terminate_seen (m n : Nat) (is : List Nat) :
+    let s := exec TStep.apply (periodicThreads false m n) TStore.init is
+    ∃ a, s.seen = List.replicate a false ++
+      List.replicate (evalsAfterSet (trace (periodicThreads false m n) is)) true := by
+  have hsteps : ∀ a ∈ trace (periodicThreads false m n) is, TStep.fixedAlphabet a := by
+    intro a ha
+    obtain ⟨t, ht, hat⟩ := mem_trace _ _ a ha
+    exact periodicThreads_fixed m n t ht a hat
+  obtain ⟨a, ha⟩ := runSteps_T_false _ hsteps []
+  exact ⟨a, by simpa [exec, TStore.init] using ha⟩
+
+example : (exec TStep.apply (periodicThreads false 1 2) TStore.init [0, 1, 0, 2, 2]).seen = [true, true] := by decide
+
+/-- **Cache-only variant** (`eval()` answers from the cache, `terminate()` also writes the cache): when
+`terminate()` arrives between the predicate call and the store of its (false) answer, the request is overwritten
+and no later evaluation ever sees it, however many there are. -/
+theorem periodic_cache_only_loses_terminate (n : Nat) :
+    ∃ is, Complete (periodicThreads true 1 n) is ∧
+      trace (periodicThreads true 1 n) is = [.callFn, .setTC, .storeCache] ++ List.replicate n .evalCache ∧
+      ∀ b ∈ (exec TStep.apply (periodicThreads true 1 n) TStore.init is).seen, b = false := by
+  have hrem : ∀ (j : Nat) (l : List TStep), remain [[], [], l] (List.replicate j 2) = [[], [], l.drop j] := by
+    intro j
+    induction j with
+    | zero => intro l; rfl
+    | succ j ih =>
+      intro l
+      cases l with
+      | nil => simpa [List.replicate_succ, remain] using ih []
+      | cons a l => simpa [List.replicate_succ, remain] using ih l
+  have htr : ∀ (j : Nat), trace [[], [], List.replicate j TStep.evalCache] (List.replicate j 2) =
+      List.replicate j .evalCache := by
+    intro j
+    induction j with
+    | zero => rfl
+    | succ j ih => simp [List.replicate_succ, trace, ih]
+  have hrun : ∀ (j : Nat) (seen : List Bool), (∀ b ∈ seen, b = false) →
+      ∀ b ∈ (runSteps TStep.apply (List.replicate j .evalCache) ⟨true, false, false, seen⟩).seen, b = false := by
+    intro j
+    induction j with
+    | zero => intro seen hs; exact hs
+    | succ j ih =>
+      intro seen hs
+      simp only [List.replicate_succ, runSteps_cons, TStep.apply]
+      exact ih _ (by intro b hb; rcases List.mem_append.mp hb with hb | hb; exact hs b hb; simpa using hb)
+  refine ⟨0 :: 1 :: 0 :: List.replicate n 2, ?_, ?_, ?_⟩
+  · intro t ht
+    simp only [periodicThreads, if_true, List.replicate_succ, List.replicate_zero, List.flatten_cons, List.flatten_nil,
+      List.append_nil, remain, List.getElem?_cons_succ, List.getElem?_cons_zero,
+      List.set_cons_succ, List.set_cons_zero] at ht
+    rw [hrem n] at ht
+    simp at ht
+    rcases ht with rfl | rfl <;> rfl
+  · simp [periodicThreads, trace, htr]
+  · simp only [exec, periodicThreads, if_true, List.replicate_succ, List.replicate_zero, List.flatten_cons, List.flatten_nil,
+      List.append_nil, trace, List.getElem?_cons_succ, List.getElem?_cons_zero,
+      List.set_cons_succ, List.set_cons_zero, htr, runSteps_cons, TStep.apply, TStore.init]
+    exact hrun n [] (by simp)
+
+/-! ## PRM's two-thread solve at lock granularity -/
+
+/-- **The solution thread's reads are consistent under every schedule** (repaired code, F38): in every check the
+component answer and the two states come from the same storage — same generation, same contents — whatever the
+roadmap thread adds (and reallocates) in between, for every scheduler, complete or not. -/
+theorem prm_solution_thread_reads_consistent {S : Type} (vs : List (S × Bool)) (n : Nat) (is : List Nat) :
+    ∀ p ∈ (exec RStep.apply (prmThreads true vs n) RStore.init is).log, p.1 = p.2 := by
+  have hsteps : ∀ a ∈ trace (prmThreads true vs n) is, RStep.repaired a := by
+    intro a ha
+    obtain ⟨t, ht, hat⟩ := mem_trace _ _ a ha
+    exact prmThreads_repaired vs n t ht a hat
+  exact runSteps_preserves_of RStep.apply (fun s => ∀ p ∈ s.log, p.1 = p.2) RStep.repaired
+    (fun a s ha h => rstep_consistent a s ha h) _ hsteps _ (by intro p hp; simp [RStore.init] at hp)
+
+/-- before the repair (states read after the lock was released): the roadmap thread can add a vertex and
+reallocate between the two halves, and the states are read from another storage than the component answer -/
+theorem prm_unlocked_state_read_stale {S : Type} (v : S) :
+    ∃ is, Complete (prmThreads false [(v, true)] 1) is ∧
+      (exec RStep.apply (prmThreads false [(v, true)] 1) RStore.init is).log = [((0, []), (1, [v]))] :=
+  ⟨[1, 0, 1], by simp [Complete, prmThreads, remain],
+    by simp [prmThreads, exec, trace, runSteps, RStep.apply, RStore.init]⟩
+
+example : (exec RStep.apply (prmThreads true [((7 : Nat), true), (8, false)] 2) RStore.init [1, 0, 1, 0]).log =
+    [((0, []), (0, [])), ((1, [7]), (1, [7]))] := by decide
 
 /-! ## pRRT's worker loop at lock granularity -/
 
